@@ -22,7 +22,7 @@ func init() {
 			"(R3) both range builders clip with min(_, exclusiveEndBlock), Range(idx) yields nil below FirstIndex and followingRange yields nil above LastIndex, the first range starts at the initial block and a following range at idx*interval; " +
 			"(R4) remainders by the interval/chunk size are only compared with zero or subtracted from their own dividend; " +
 			"(R5) Range.Split: the first chunk starts at the range's start, every following chunk starts exactly where the previous ended, a chunk end is the previous end plus the chunk size clipped to the range's end, chunks are produced until that end is reached and all of them are returned, a range fitting one chunk is returned as is; " +
-			"(R6) Ranges.Merged: a merged range runs from the start of the first to the end of the last range of a chain whose every link was compared end == next start, nothing is merged or extended without that comparison having succeeded, and every other input range is kept unchanged. R1 also pins Count() = LastIndex − FirstIndex + 1 and the argument roles of NewSegmenter / With*. Also (R6) in the squash loops of Merged/MergedBuckets the input index and the chain's last element advance together on every back edge and exit. Also (R5) inside package block the bounds of a Range are written only while it is being built (no operation moves its receiver).",
+			"(R6) Ranges.Merged: a merged range runs from the start of the first to the end of the last range of a chain whose every link was compared end == next start, nothing is merged or extended without that comparison having succeeded, and every other input range is kept unchanged. R1 also pins Count() = LastIndex − FirstIndex + 1 and the argument roles of NewSegmenter / With*. Also (R6) in the squash loops of Merged/MergedBuckets the input index and the chain's last element advance together on every back edge and exit. Also (R5) inside package block the bounds of a Range are written only while it is being built (no operation moves its receiver). Also (R1) WithInitialBlock rebuilds the segmenter from the same interval and end whatever the new initial block.",
 		NotCovered:  "Contiguity, disjointness and union of the segments over all (size, initial, end) triples; the bucket-size bound of MergedBuckets; that Split's first chunk end (an alignment formula) lies inside the range. These are arithmetic theorems out of reach of this family.",
 		Assumptions: []string{"interval > 0 (validated at configuration time)"},
 	})
@@ -415,6 +415,7 @@ func runC13(p *core.Prog, r *core.Report) {
 	r.Guard("C13.R5", "Range.Split", "chunks are contiguous and cover the range", func() { checkRangeSplit(p, r) })
 	r.Guard("C13.R6", "Ranges.Merged", "merging only adjacent ranges", func() { checkRangesMerged(p, r) })
 	r.Guard("C13.R5", "range-immutable", "derived ranges never move the receiver", func() { checkRangeReceiverUntouched(p, r, "C13.R5") })
+	r.Guard("C13.R1", "with-initial-block", "re-basing rebuilds the segmenter", func() { checkWithInitialBlock(p, r, "C13.R1") })
 
 	// ---- R4 alignment idiom in the block package
 	r.Guard("C13.R4", "block/remainders", "alignment idiom", func() {
